@@ -196,6 +196,25 @@ def run(ctx):
                         w2.update(d2)
                         ctx.violation(k2, w2, base_feats | {'shape:derived-with-but'})
                         break
+            if kind is None and present and ctx.evaluations % 4 == 0:
+                # history: the alias is replaced away (or introduced) on a tree that was just queried and refactored
+                import types
+                from hpl import rewrite as RW
+                for label, thunk, al2 in (('replace_var_with_this', lambda: RW.replace_var_with_this(case.h, alias), alias),
+                                          ('replace_this_with_var', lambda: RW.replace_this_with_var(case.h, 'Qh'), 'Qh')):
+                    od = hplapi.outcome(thunk)
+                    if od[0] != 'ok' or od[1] is case.h:
+                        continue
+                    k2, d2, s2, j2, sk2 = judge(types.SimpleNamespace(h=od[1]), al2, envs)
+                    ctx.count('derived_by_replacement_judged')
+                    if k2 is not None and k2 != 'not-equivalent':
+                        # (values are not compared here: the grid binds neither the new variable nor the old alias)
+                        w2 = {'input': case.text, 'alias': al2, 'level': case.level,
+                              'history': f'refactor_reference(input, {alias}); derived = {label}(input); refactor_reference(derived, {al2})',
+                              'derived': str(od[1])[:200]}
+                        w2.update(d2)
+                        ctx.violation(k2, w2, base_feats | {'shape:derived-by-replacement'})
+                        break
             if kind is None:
                 continue
             w = {'input': case.text, 'alias': alias, 'level': case.level}
